@@ -209,11 +209,28 @@ def check_fit(ctx, c):
     ctx.cell(f"fit/{name}/{mode}/sill={sill_mode}")
     ctx.cell(f"opts/{fkw['method']}/{fkw['loss']}/weights={wmode}/init={init_mode}/anis={anis_mode}")
     mech = {"model": name, "mode": mode, "sill": sill_mode, "anis": anis_mode, "tpl": name in common.TPL}
+    # memory layout of the data the caller hands over: the values (x_i, y_ij) are what counts, not how they are stored
+    layout = str(rng.choice(["c", "c", "fortran", "transposed-table", "strided", "list"]))
+    x_arg, y_arg = x, y
+    if layout == "fortran":
+        y_arg = np.asfortranarray(y)
+    elif layout == "transposed-table" and np.ndim(y) == 2:
+        y_arg = np.ascontiguousarray(np.asarray(y).T).T  # rows of a (bins, directions) table, viewed as (directions, bins)
+    elif layout == "strided":
+        bx = np.zeros(2 * x.size)
+        bx[::2] = x
+        x_arg = bx[::2]
+        by = np.zeros(np.shape(y)[:-1] + (2 * np.shape(y)[-1],))
+        by[..., ::2] = y
+        y_arg = by[..., ::2]
+    elif layout == "list":
+        x_arg, y_arg = [float(v) for v in x], np.asarray(y).tolist()
+    ctx.cell(f"layout/{layout}")
     try:
         with warnings.catch_warnings():
             warnings.simplefilter("ignore")
             with np.errstate(all="ignore"):
-                res, pcov, r2 = start.fit_variogram(x, y, init_guess=init_guess, return_r2=True, max_eval=6000,
+                res, pcov, r2 = start.fit_variogram(x_arg, y_arg, init_guess=init_guess, return_r2=True, max_eval=6000,
                                                     curve_fit_kwargs={"ftol": 1e-15, "xtol": 1e-15, "gtol": None}, **fkw)
     except RuntimeError:
         ctx.discard("optimiser did not converge (RuntimeError)")
